@@ -14,7 +14,9 @@ FONT_NAMES = ["Times New Roman", "Times New Roman Greek", "Arial Greek", "Arial"
 POOLS = {"ascii": [chr(c) for c in range(32, 127)], "latin1": [chr(c) for c in range(0xA1, 0x100) if c != 0xAD],
          "greek": [chr(c) for c in range(0x391, 0x3CA) if c != 0x3A2],
          "digit": list("0123456789"), "upper": [chr(c) for c in range(65, 91)], "lower": [chr(c) for c in range(97, 123)], "space": [" "],
-         "punct": list(".,;:!?-'\"()/%+*=")}
+         "punct": list(".,;:!?-'\"()/%+*="),
+         # pairs that proportional fonts kern (a unit of two characters: appending it must not shrink the text either)
+         "kern": ["AV", "VA", "To", "Ty", "Te", "LT", "WA", "Wa", "Ya", "Vo", "P.", "F.", "T.", "y.", "r,", "11"]}
 
 
 def make_text(classes, rng):
@@ -24,7 +26,7 @@ def make_text(classes, rng):
             out.append(out[-1] if out else "a")
         else:
             out.append(rng.choice(POOLS[c]))
-    return "".join(out)
+    return out
 
 
 def _ulps(value, exact):
@@ -41,7 +43,8 @@ def run_one(item):
     rng = random.Random(item["seed"])
     font, size = h["font"], SIZES[h["size"] - 1]
     name = FONT_NAMES[font - 1]
-    text = item.get("text") if item.get("text") is not None else make_text(h["txt"], rng)
+    units = list(item["text"]) if item.get("text") is not None else make_text(h["txt"], rng)
+    text = "".join(units)
     rec = {"id": item["id"], "h": h, "text": text}
     c = {"font": font, "bad": h["bad"], "outcome": "ok", "adv64": 0, "w1": 0, "w2": 0, "s1": 2, "s2": 2, "ulp_in": 0, "ulp_mm": 0, "ulp_px": 0}
     ev = []
@@ -61,11 +64,12 @@ def run_one(item):
         rec["c"], rec["ev"] = c, ev
         return rec
     try:
-        for k in range(len(text) + 1):
-            w = get_string_width(text[:k], font=font, font_size=size, unit="px")
-            wn = get_string_width(text[:k], font=name, font_size=size, unit="px")
+        for k in range(len(units) + 1):
+            pre = "".join(units[:k])
+            w = get_string_width(pre, font=font, font_size=size, unit="px")
+            wn = get_string_width(pre, font=name, font_size=size, unit="px")
             w64 = w * 64
-            ev.append({"n": k, "w64": int(round(w64)), "w64name": int(round(wn * 64)), "exact": abs(w64 - round(w64)) < 1e-6})
+            ev.append({"n": len(pre), "w64": int(round(w64)), "w64name": int(round(wn * 64)), "exact": abs(w64 - round(w64)) < 1e-6})
         c["adv64"] = int(round(get_string_width("M", font=9, font_size=size, unit="px") * 64))
         dpi = DPIS[h["dpi"] - 1]
         px = get_string_width(text, font=font, font_size=size, unit="px", dpi=dpi)
